@@ -542,12 +542,16 @@ func (e *Engine) VerifyFunc(c *Contract) (res *FuncResult) {
 // frameObligations: every heap changed by the body is covered by the modifies clause.
 func (ex *Exec) frameObligations(env0 *SpecEnv, entry, out *State, c *Contract) {
 	allowed := map[string][]*Term{} // nil slice entry with whole=true
+	allowedEl := map[string][][2]*Term{}
 	whole := map[string]bool{}
 	for _, m := range c.Modifies {
 		for _, hr := range ex.designatorHeaps(env0, m) {
-			if hr.idx == nil {
+			switch {
+			case hr.idx == nil:
 				whole[hr.name] = true
-			} else {
+			case hr.sub != nil:
+				allowedEl[hr.name] = append(allowedEl[hr.name], [2]*Term{hr.idx, hr.sub})
+			default:
 				allowed[hr.name] = append(allowed[hr.name], hr.idx)
 			}
 		}
@@ -599,6 +603,18 @@ func (ex *Exec) frameObligations(env0 *SpecEnv, entry, out *State, c *Contract) 
 			conds = append(conds, Ne(o, ix))
 		}
 		goal := Implies(And(conds...), Eq(Select(fin, o), Select(ini, o)))
+		if els := allowedEl[n]; len(els) > 0 {
+			// single elements of backing arrays are allowed: compare position by position
+			_, es := srt.splitArr()
+			if es.IsArray() {
+				ks, _ := es.splitArr()
+				k := Fresh("k", ks)
+				for _, e := range els {
+					conds = append(conds, Not(And(Eq(o, e[0]), Eq(k, e[1]))))
+				}
+				goal = Implies(And(conds...), Eq(Select(Select(fin, o), k), Select(Select(ini, o), k)))
+			}
+		}
 		ob := ex.oblige(out, "frame", "frame/"+n, goal, ex.top.Pos())
 		_ = ob
 	}
